@@ -167,7 +167,15 @@ func (g *caseGen) viaStore() string {
 
 func (g *caseGen) name() nm { return vlib.Pick(g.r, g.pool) }
 
+// spellings no decoder produces (dangling backslash, empty labels, empty
+// name): dns.CanonicalName is not idempotent on the first kind, and the model
+// mirrors the double normalisation; the oracle does not judge them.
+var oddNames = []string{"tail\\", "a.tail\\", "", "..", "a..b.", "a\\.", "\\", ".a.", "x\\\\", "ab\\12", "q\\300.example.com."}
+
 func (g *caseGen) presOf(n nm) string {
+	if g.r.Chance(1, 30) {
+		return vlib.Pick(g.r, oddNames)
+	}
 	v := 0
 	if g.r.Chance(2, 5) {
 		v = g.r.Intn(5)
@@ -427,8 +435,12 @@ func (g *caseGen) one() {
 		}
 	case k < 81:
 		g.seed()
-	case k < 83:
+	case k < 82:
 		g.alias()
+	case k < 84:
+		if len(g.qs) > 0 {
+			g.out("fail race %s %d %d", vlib.Pick(r, g.qs), g.step(), 2+r.Intn(7))
+		}
 	case k < 85:
 		g.out("fail backoff %d", vlib.Pick(r, []int{0, 1, 2, 3, 4, 5, 6, 7, 8, 9, 10, 16, 31, 32, 33, 63, 64, 65, 1000, 4294967295}))
 		g.out("fail len")
@@ -466,10 +478,12 @@ func (g *caseGen) one() {
 		} else {
 			g.out("fail spurge %s %d %d", hexName(q.name), q.t, q.c)
 		}
-	case k < 97:
+	case k < 96:
 		q := g.relatedQ()
 		g.qs = append(g.qs, q)
 		g.out("fail sset %s %s %d", q, vlib.Pick(r, []string{"useful", "nxdomain", "servfail", "refused", "other"}), g.step())
+	case k < 98:
+		g.serve()
 	default:
 		q := g.relatedQ()
 		g.qs = append(g.qs, q)
@@ -478,6 +492,54 @@ func (g *caseGen) one() {
 		class := vlib.Pick(r, []string{"servfail", "servfail", "refused", "useful", "nxdomain"})
 		g.out("fail write %s %s %s %d %d %s", flags, mark, q, g.step(), r.Intn(3), class)
 		g.out("fail lookup %s %d", q, g.t)
+	}
+}
+
+// wireOfPres encodes a presentation name (decoded by the oracle's scanner).
+func wireOfPres(s string) (string, bool) {
+	c, ok := canonRaw(s)
+	if !ok {
+		return "", false
+	}
+	ls, _, _, ok := scanName(c)
+	if !ok {
+		return "", false
+	}
+	var w []byte
+	for _, l := range ls {
+		if len(l) > 63 {
+			return "", false
+		}
+		w = append(w, byte(len(l)))
+		w = append(w, l...)
+	}
+	w = append(w, 0)
+	return vlib.Hex(w), len(w) <= 255
+}
+
+func (g *caseGen) alsoWire(q qspec, t int64) {
+	if w, ok := wireOfPres(q.name); ok {
+		g.out("fail %slookupw %s %d %d %s %d", g.viaStore(), w, q.t, q.c, vlib.B(q.cd), t)
+	}
+}
+
+// a short client session through the real Cache.ServeDNS: the upstream fails,
+// the repeats inside the backoff must not reach it, the first one after it may.
+func (g *caseGen) serve() {
+	r := g.r
+	q := g.relatedQ()
+	q.t = vlib.Pick(r, []int{1, 28, 16})
+	q.c = 1
+	q.scope = "-"
+	if _, ok := wireOfPres(q.name); !ok {
+		q.name = "www.example.com."
+	}
+	g.qs = append(g.qs, q)
+	key := fmt.Sprintf("%s %d %d %s", hexName(q.name), q.t, q.c, vlib.B(q.cd))
+	outs := []string{"servfail", "servfail", "refused", "nxdomain", "useful", "local:work", "local:attempt", "local:probe", "local:maxrec", "local:canceled", "local:deadline", "local:other"}
+	n := 2 + r.Intn(4)
+	for i := 0; i < n; i++ {
+		g.out("fail serve %s %s %d %s", key, vlib.B(r.Bool()), g.step(), vlib.Pick(r, outs))
 	}
 }
 
@@ -508,11 +570,13 @@ func (g *caseGen) seed() {
 		}
 		g.out("fail seed q %s q %s %d %d", tgt, e, streak, ra)
 		g.out("fail lookup %s %d", tgt, g.t)
+		g.alsoWire(tgt, g.t)
 		g.out("fail retrykey %s %d", tgt, ra+1)
 		g.out("fail lookup %s %d", e, g.t)
 	case 2: // a zone state under a question key
 		g.out("fail seed q %s z %s %d %d %d", tgt, hexName(tgt.name), tgt.c, streak, ra)
 		g.out("fail lookup %s %d", tgt, g.t)
+		g.alsoWire(tgt, g.t)
 	case 3: // a sibling zone under the key of an ancestor zone of the target
 		z := g.relatedZ()
 		sib := zspec{"not" + z.zone, z.c}
@@ -525,12 +589,14 @@ func (g *caseGen) seed() {
 			child.name = "www."
 		}
 		g.out("fail lookup %s %d", child, g.t)
+		g.alsoWire(child, g.t)
 		g.out("fail retrykey %s %d", child, ra+1)
 		g.out("fail recz %s %d 4", z, g.t)
 	case 4: // a question state under a zone key
 		z := g.relatedZ()
 		g.out("fail seed z %s q %s %d %d", z, qspec{z.zone, 6, z.c, false, "-"}, streak, ra)
 		g.out("fail lookup %s %d", qspec{z.zone, 1, z.c, false, "-"}, g.t)
+		g.alsoWire(qspec{z.zone, 1, z.c, false, "-"}, g.t)
 	case 5: // a faithful state with a chosen streak / retryAfter (renewal from a high streak)
 		g.qs = append(g.qs, tgt)
 		g.out("fail seed q %s q %s %d %d", tgt, tgt, vlib.Pick(r, []int{1, 2, 3, 5, 9, 30, 4294967294, 4294967295}), ra)
